@@ -336,6 +336,21 @@ def plan_c01(prop, tier, seed, t0):
             s = scn("c01-big-%d" % i, steps, seed=sd + i)
             s["meta"]["light"] = True
             out.append(s)
+        # hundreds of deliveries that expire at the same instant while requests arrive in that very
+        # instant (the expiry turn must be all-or-nothing whatever else is in the mailbox)
+        for i, n in enumerate((300, 600) if quick else (256, 257, 300, 600, 1000)):
+            for lead in (0, 1):
+                steps = [call(1, op="CreateTopic", name=T1), call(1, op="CreateSub", name=S1, topic=T1, ack=10),
+                         call(1, op="Publish", topic=T1, msgs=[{"p": "bulk:%d" % n}]),
+                         call(2, op="Pull", sub=S1, max=1000, ri=True),
+                         {"do": "advance", "ms": 10000 - lead}]
+                for j in range(12):
+                    steps.append(start("g%d" % j, 10 + j, op=("GetSub" if j % 3 else "Pull"), **(dict(name=S1) if j % 3 else dict(sub=S1, max=1, ri=True))))
+                steps += [{"do": "advance", "ms": 1 + lead}, {"do": "waitall"}, {"do": "advance", "ms": 200},
+                          call(3, op="Pull", sub=S1, max=1000, ri=True), call(3, op="Pull", sub=S1, max=1000, ri=True)]
+                s = scn("c01-massexpiry-%d-%d" % (n, lead), steps, seed=sd + i, phase=0, cap=(16, 2)[lead])
+                s["meta"]["light"] = True
+                out.append(s)
         return out
     # ... and requests abandoned at every suspension point (a message picked for a consumer that has
     # gone, a publish whose caller went away) must not lose anything either
@@ -420,6 +435,28 @@ def refused_next_to_live_scenarios(seed, quick):
                   {"do": "drain", "c": 9}]
         s2 = scn("refused-live-%d" % k, steps, seed=seed * 100 + k, cap=(16, 1, 2)[k % 3])
         s2["meta"]["proj"][TP] = "p2"
+        out.append(s2)
+    return out
+
+
+def listing_walk_scenarios(seed, quick):
+    """More resources than one default page, walked with page sizes 0, 7, 20, 1000 and 5000 (beyond the
+    cap), also right after deleting and creating in the middle of a walk's range."""
+    out = []
+    n = 25 if quick else 45
+    for i, size in enumerate((0, 7, 5000) if quick else (0, 1, 7, 20, 1000, 1001, 5000, 2147483647)):
+        steps = [call(1, op="CreateTopic", name="projects/p1/topics/t%d" % (k + 10)) for k in range(n)]
+        steps += [call(1, op="CreateSub", name="projects/p1/subscriptions/s%d" % (k + 10), topic="projects/p1/topics/t10", ack=10) for k in range(n)]
+        walks = [{"do": "walk", "c": 1, "kind": "topics", "arg": "projects/p1", "size": size},
+                 {"do": "walk", "c": 1, "kind": "subs", "arg": "projects/p1", "size": size},
+                 {"do": "walk", "c": 1, "kind": "topicsubs", "arg": "projects/p1/topics/t10", "size": size}]
+        steps += walks + [call(1, op="DeleteSub", name="projects/p1/subscriptions/s%d" % (n // 2 + 10)),
+                          call(1, op="DeleteTopic", name="projects/p1/topics/t%d" % (n // 2 + 10))] + walks
+        proj = V.proj_map()
+        for k in range(n):
+            proj["projects/p1/topics/t%d" % (k + 10)] = "p1"
+            proj["projects/p1/subscriptions/s%d" % (k + 10)] = "p1"
+        s2 = scn("walks-%d" % i, steps, seed=seed + i, extra_proj=proj)
         out.append(s2)
     return out
 
@@ -749,6 +786,16 @@ def plan_c08(prop, tier, seed, t0):
                      {"do": "sopen", "h": "s", "c": 5, "sub": S2, "max": 100}, {"do": "settle"}, {"do": "sabandon", "h": "s"},
                      {"do": "drain", "c": 9}]
             out.append(scn("c08-keys-%d" % i, steps, seed=sd + i))
+        # backlogs beyond the pull cap (1000), pulls asking for more (judged on sizes, light recording)
+        for i, (n, mx) in enumerate([(1200, 1100), (2500, 2000)] if quick else [(1200, 1100), (2500, 2000), (1001, 1001), (3000, 70000)]):
+            steps = [call(1, op="CreateTopic", name=T1), call(1, op="CreateSub", name=S1, topic=T1, ack=10),
+                     call(1, op="Publish", topic=T1, msgs=[{"p": "bulk:%d" % n}]),
+                     call(2, op="Pull", sub=S1, max=mx, ri=True), call(2, op="Pull", sub=S1, max=mx, ri=True),
+                     call(1, op="Publish", topic=T1, msgs=[{"p": "bulk:5"}]), call(2, op="Pull", sub=S1, max=mx, ri=True),
+                     {"do": "advance", "ms": 11000}, call(2, op="Pull", sub=S1, max=mx, ri=True)]
+            s2 = scn("c08-cap-%d" % i, steps, seed=sd + i)
+            s2["meta"]["light"] = True
+            out.append(s2)
         # publishes queued behind a DeleteTopic in the topic's mailbox still get increasing ids
         return out + inflight_topic_delete_scenarios(sd, quick)
     return core_check(prop, tier, seed, t0, over, explore=[("data", 64, 3000), ("mixed", 16, 1000), ("mt:pubrace", 300, 20000)], caps=(16, 1, 2),
@@ -790,7 +837,8 @@ def plan_c10(prop, tier, seed, t0):
                 MaxOps=5, MaxMsgs=1)
     return core_check(prop, tier, seed, t0, over, explore=[("churn", 64, 3000), ("mt:churnrace", 300, 20000), ("mt:cdrace", 300, 20000)],
                       extra_scenarios=lambda quick, sd: inflight_delete_scenarios(sd, quick) + inflight_topic_delete_scenarios(sd, quick)
-                      + empty_batch_scenarios(sd) + ack_deadline_scenarios(sd, quick) + refused_next_to_live_scenarios(sd, quick),
+                      + empty_batch_scenarios(sd) + ack_deadline_scenarios(sd, quick) + refused_next_to_live_scenarios(sd, quick)
+                      + listing_walk_scenarios(sd, quick),
                       thorough={"mc": dict(MaxOps=6)}, turns=True)
 
 
@@ -802,7 +850,7 @@ def plan_c11(prop, tier, seed, t0):
     return core_check(prop, tier, seed, t0, over, explore=[("churn", 64, 3000), ("mt:churnrace", 300, 20000), ("mt:cdrace", 300, 20000)],
                       extra_scenarios=lambda quick, sd: cancel_scenarios(sd, kinds={"DeleteSub", "DeleteTopic", "CreateSub"}, quick=quick)
                       + inflight_delete_scenarios(sd, quick) + inflight_topic_delete_scenarios(sd, quick)
-                      + pinned_topic_scenarios(sd, quick) + orphan_scenarios(sd, quick),
+                      + pinned_topic_scenarios(sd, quick) + orphan_scenarios(sd, quick) + listing_walk_scenarios(sd, quick),
                       thorough={"mc": dict(MaxOps=7)}, turns=True)
 
 
@@ -814,7 +862,9 @@ def plan_c13(prop, tier, seed, t0):
 
     def extra(quick, seed):
         out = []
-        sizes = [(25, 0), (7, 3), (5, 5), (4, 5), (6, 1000)] if quick else [(25, 0), (45, 0), (1001, 5000), (30, 7), (12, 12), (12, 13)]
+        # (260 resources in pages of 50 / 63: page boundaries at offsets whose low byte is 248..255)
+        sizes = [(25, 0), (7, 3), (5, 5), (4, 5), (6, 1000), (260, 50)] if quick else \
+            [(25, 0), (45, 0), (1001, 5000), (30, 7), (12, 12), (12, 13), (260, 50), (260, 63), (520, 1), (780, 20)]
         for i, (n, size) in enumerate(sizes):
             steps = []
             for k in range(n):
@@ -1486,6 +1536,19 @@ def c06_scenarios(n_seeds, seed):
             out.append(scn("c06-W14-%d" % k, prepush + [cons, {"do": "settle"},
                 call(2, op="Publish", topic=T1, msgs=[{"p": "w14-%d" % k}]), {"do": "settle"}, Q, {"do": "advance", "ms": 50}, Q]
                 + ([{"do": "wait", "h": "p"}] if k % 2 == 0 else [{"do": "sabandon", "h": "s"}]) + [Q, {"do": "drain", "c": 9}],
+                seed=sd, cap=cap))
+        # W15: an idle stream whose client went away (and the server had time to notice) ahead of a
+        # consumer that still waits: the next message goes to the one that waits
+        if k < 8:
+            waiter = (start("p2", 4, op="Pull", sub=S1, max=1, ri=False) if k % 2 == 0 else {"do": "sopen", "h": "s2", "c": 4, "sub": S1, "max": 1})
+            out.append(scn("c06-W15-%d" % k, pre + [
+                {"do": "sopen", "h": "s1", "c": 3, "sub": S1, "max": 1 + k % 3}, {"do": "settle"},
+                call(2, op="Publish", topic=T1, msgs=[{"p": "w15-%d-warm" % k}]), {"do": "settle"},
+                {"do": "ssend", "h": "s1", "acks": [{"d": 1}]}, {"do": "settle"}, Q,
+                waiter, {"do": "settle"},
+                {"do": "sabandon", "h": "s1"}, {"do": "settle"}, Q, {"do": "advance", "ms": 20}, Q,
+                call(2, op="Publish", topic=T1, msgs=[{"p": "w15-%d" % k}]), {"do": "settle"}, Q, {"do": "advance", "ms": 50}, Q]
+                + ([{"do": "wait", "h": "p2"}] if k % 2 == 0 else [{"do": "sabandon", "h": "s2"}]) + [Q, {"do": "drain", "c": 9}],
                 seed=sd, cap=cap))
         # W9: a backlog beyond 65535 messages (16-bit arithmetic in the pull path): several waiting
         # consumers, one huge publish; light recording, judged on the reported backlog sizes
